@@ -89,6 +89,32 @@ func streamFaults(cfg *Config, res *Result) error {
 	g := HistGen{Layering: "disjoint", NSteps: 4, Rollbacks: 1}
 	for i := 0; i < nCases; i++ {
 		c := genHistCase(r, g, umask)
+		if cfg.Prop == "C09" && r.Chance(1, 3) {
+			// an entry of another type takes an original's place: Rollback has to make room first
+			// (an empty directory replaced by a symlink to another directory, a file replaced by a
+			// directory, a directory replaced by a file)
+			have := map[string]bool{}
+			for _, e := range c.Tree {
+				have[e.Path] = true
+			}
+			if !have["/eq"] && !have["/oq"] && !have["/fq"] {
+				c.Tree = append(c.Tree,
+					Entry{Path: "/eq", Kind: "dir", Mode: 0o750, UID: 1000, GID: 0, MTime: oldTime(r)},
+					Entry{Path: "/oq", Kind: "dir", Mode: 0o755, MTime: oldTime(r)},
+					Entry{Path: "/oq/inner", Kind: "file", Mode: 0o644, MTime: oldTime(r), Data: "inner-content"},
+					Entry{Path: "/fq", Kind: "file", Mode: 0o640, MTime: oldTime(r), Data: "file-content"})
+				var pre []Step
+				switch r.Intn(3) {
+				case 0:
+					pre = []Step{{Op: &Op{"remove", []string{"/eq"}}}, {Op: &Op{"symlink", []string{r.Pick([]string{"/oq", "oq"}), "/eq"}}}}
+				case 1:
+					pre = []Step{{Op: &Op{"remove", []string{"/fq"}}}, {Op: &Op{"mkdirall", []string{"/fq/sub", "493"}}}}
+				default:
+					pre = []Step{{Op: &Op{"remove", []string{"/eq"}}}, {Op: &Op{"creat", []string{"/eq", "now-a-file"}}}}
+				}
+				c.Steps = append(pre, c.Steps...)
+			}
+		}
 		if cfg.Prop == "C08" {
 			// deep creations: several missing levels below an existing directory whose copy can fail
 			for k := range c.Steps {
@@ -124,6 +150,27 @@ func streamFaults(cfg *Config, res *Result) error {
 			fc := *c
 			fc.Faults = []FaultSpec{pts[pi].spec}
 			jobs = append(jobs, job{&fc})
+		}
+		// permission- and space-type failures (outside the model: oracle only).  Permission errors of
+		// chown/lchown/chtimes are ignored by the code on purpose and are not injected.
+		if cfg.Prop == "C08" {
+			cnt := 0
+			for _, pi := range r.Perm(len(pts)) {
+				m := pts[pi].spec.Method
+				kind := []string{"perm", "nospc"}[cnt%2]
+				if kind == "perm" && (m == "chown" || m == "lchown" || m == "chtimes" || m == "lstat") {
+					// ignored on purpose by the code (ignoreChownError; the Lstat inside the chown
+					// helper is wrapped into the same class)
+					kind = "nospc"
+				}
+				fc := *c
+				fc.Faults = []FaultSpec{pts[pi].spec}
+				fc.FaultErr = kind
+				jobs = append(jobs, job{&fc})
+				if cnt++; cnt >= 8 {
+					break
+				}
+			}
 		}
 		// a few double faults
 		for k := 0; k < 2 && len(pts) >= 2; k++ {
